@@ -3,8 +3,10 @@ from vlib.spec import chx
 EXPLANATION = ("CrossHair (z3) symbolic execution of the real BackupDB_v2 methods over an in-memory table model: stored and current size/mtime/ctime, "
                "timestamps are unbounded symbolic ints; row presence, cap choice, record age and random draw are symbolic selectors over concrete values.")
 ASSUMPTIONS = [
-    "SQLite replaced by an in-memory model of the four tables that executes the 13 SQL statements of backupdb.py (PRIMARY KEY/UNIQUE conflicts raise IntegrityError, "
-    "caps.fileid autoincrements, UPDATE of a missing row is a no-op); real SQLite typing/affinity (NUMBER columns, float timestamps) is outside the claim",
+    "SQLite replaced by an in-memory engine for the SQL subset of backupdb.py (INSERT [OR IGNORE|OR REPLACE]/REPLACE/UPDATE/DELETE/SELECT incl. the two-table join); table "
+    "definitions (columns, PRIMARY KEY, INTEGER PRIMARY KEY rowid alias, AUTOINCREMENT, UNIQUE) are parsed from backupdb.SCHEMA_v2 at run time; constraint conflicts raise IntegrityError, "
+    "lastrowid/rowid allocation follow sqlite (AUTOINCREMENT never reuses an id, plain INTEGER PRIMARY KEY reuses max+1); the engine is compared with the real sqlite3 on a 23-statement "
+    "script at import; real SQLite typing/affinity (NUMBER columns, float timestamps) is outside the claim",
     "os.stat of the module is symbolic (size >= 0, mtime/ctime arbitrary ints); the record age (now - last_checked) ranges over 8 concrete values around the 1-month / 2-month boundaries "
     "(incl. negative: clock skew) and the random draw over 4 values: the re-check rule does float arithmetic, which does not discharge symbolically",
     "pre-state of the file obligations: an optional record for the path (symbolic size/mtime/ctime, fileid 1 or 2), optional caps/last_upload rows for that fileid "
@@ -22,8 +24,8 @@ OBLIGATIONS = [
              "the current stat, timestamps are trusted and the cap is still known - and then it is that record's cap; otherwise False, the stale record (only it) is deleted and committed; "
              "the result carries the current stat; a hit does not modify the database (sizes/times: unbounded symbolic ints)"),
     chx("upload_then_check", "C42_h", "h_upload_then_check", timeout=T,
-        desc="state (no record / complete record / forgotten cap) -> check_file -> did_upload(cap: known or new) -> file changes by symbolic deltas, time passes -> check_file: the record holds "
-             "the uploaded stat and cap (INSERT and UPDATE paths, cap de-duplication); the MOST RECENT cap is offered iff nothing changed and timestamps are trusted, else nothing and the record "
+        desc="state (no record / complete record / forgotten cap) -> check_file -> did_upload(cap: known or new) while the file is modified again during the upload (symbolic deltas) -> later changes, time passes -> check_file: the record holds "
+             "the stat that check_file observed (not a later one) and the cap (INSERT and UPDATE paths, cap de-duplication); the MOST RECENT cap is offered iff nothing changed and timestamps are trusted, else nothing and the record "
              "is dropped; another path is answered from its own record only; did_check_healthy resets the re-check age"),
     chx("recheck_rule", "C42_h", "h_recheck_rule", timeout=T,
         desc="should_check() for files and directories over 8 record ages (negative, 0, exactly 1 month, just above, 1.5 months, just below 2, exactly 2, 3 months) x 4 random draws: "
@@ -36,6 +38,9 @@ OBLIGATIONS = [
         desc="one run uploads two files (check_file -> did_upload twice) where the second cap may already be known (same as the first file's, or from an earlier run; second path with or "
              "without a previous record): afterwards each path is answered with its own cap, each path's record links to the fileid of its own cap, no cap is registered twice "
              "(get_or_allocate_fileid_for_cap, incl. sqlite's lastrowid semantics in the table model)"),
+    chx("forgotten_cap", "C42_h", "h_forgotten_cap", timeout=T,
+        desc="b.txt is uploaded (highest fileid), its caps row (optionally last_upload row) is then deleted, other files are uploaded with known / new caps, then b.txt is checked "
+             "unchanged: the answer is False (never another file's cap) - relies on the fileid allocation of the schema in backupdb.SCHEMA_v2 (AUTOINCREMENT), which the table model reads"),
     chx("directory_pairs", "C42_h", "h_directory_pairs", timeout=T,
         cases={"quick": [{"names2": [0, 1], "caps2": [0, 1, 2, 3], "_label": "concat"}, {"names2": [0, 3], "caps2": [0, 1, 5, 6], "_label": "framing"}],
                "thorough": [{"_label": "all"}]},
